@@ -75,17 +75,25 @@ CartBehaviour(c) ==
 
 (* area features with depth surfaces given at points: the min / max pre-test before the local depth is looked up *)
 AreaTypes == {"continental plate", "oceanic plate", "mantle layer"}
-AreaCfg == [type : AreaTypes, sph : BOOLEAN, flip : BOOLEAN]
+(* the four corners carry four different values; rot says with which corner the coordinate list starts and peak which
+   corner carries the extreme (the deepest max depth, the shallowest min depth): the feature-wide minimum / maximum of a
+   surface must not depend on where in the list its extreme stands *)
+AreaCfg == [type : AreaTypes, sph : BOOLEAN, rot : 0..3, peak : 0..3]
+Corners4 == << <<100, 100>>, <<900, 100>>, <<900, 700>>, <<100, 700>> >>
+MaxVals == <<230, 260, 290, 320>>      \* km
+MinVals == <<55, 40, 25, 10>>
 AreaDoc(c) ==
   LET Uu(x) == IF c.sph THEN Rat(x, 100) ELSE x * Km
-      P(x, y) == <<Uu(x), Uu(y)>>
-      lo == IF c.flip THEN 90 ELSE 30   hi == IF c.flip THEN 30 ELSE 90
+      P(p) == <<Uu(p[1]), Uu(p[2])>>
+      corner(k) == Corners4[((k - 1 + c.rot) % 4) + 1]                    \* k-th entry of the coordinate list
+      val(vs, k) == vs[((k - 1 + c.rot + 4 - c.peak) % 4) + 1]           \* corner number peak + 1 gets vs[4]
   IN World(IF c.sph THEN Spherical("begin segment") ELSE Cartesian,
-           <<Area(c.type, "a", <<P(100, 100), P(900, 100), P(900, 700), P(100, 700)>>,
-                  << <<lo * Km, <<P(100, 100), P(100, 700)>>>>, <<hi * Km, <<P(900, 100), P(900, 700)>>>>, <<60 * Km, <<P(500, 400)>>>> >>,
-                  << <<(lo + 100) * Km, <<P(100, 100), P(900, 700)>>>>, <<(hi + 200) * Km, <<P(900, 100), P(100, 700)>>>>, <<250 * Km, <<P(300, 300)>>>> >>,
+           <<Area(c.type, "a", [k \in 1..4 |-> P(corner(k))],
+                  [k \in 1..4 |-> <<val(MinVals, k) * Km, <<P(corner(k))>>>>] \o << <<60 * Km, <<P(<<500, 400>>)>>>> >>,
+                  [k \in 1..4 |-> <<val(MaxVals, k) * Km, <<P(corner(k))>>>>] \o << <<250 * Km, <<P(<<300, 300>>)>>>> >>,
                   <<TUniform(500, "replace")>>, <<CUniform(<<1>>, "replace")>>, <<>>, <<>>)>>)
-AreaRows(c) == LET ps == SetToSeq({50 * k : k \in 1..19} \X {50 * k : k \in 1..15} \X {0, 20, 29, 30, 31, 45, 60, 89, 90, 91, 120, 130, 131, 190, 250, 289, 290, 291, 400}) IN
+AreaRows(c) == LET ps == SetToSeq({50 * k : k \in 1..19} \X {50 * k : k \in 1..15}
+                                  \X {0, 9, 10, 11, 24, 25, 26, 39, 40, 41, 54, 55, 56, 60, 120, 229, 230, 231, 259, 260, 261, 289, 290, 291, 319, 320, 321, 400}) IN
                [k \in 1..Len(ps) |-> IF c.sph THEN <<R - ps[k][3] * Km, Rat(ps[k][1], 100), Rat(ps[k][2], 100), ps[k][3] * Km>>
                                               ELSE <<ps[k][1] * Km, ps[k][2] * Km, HM - ps[k][3] * Km, ps[k][3] * Km>>]
 AreaBehaviour(c) ==
